@@ -48,13 +48,26 @@ def run_free(mutate=None):
     return dict(obls=obls, paths=n, sources=[L.info()], consistent=sym.consistent())
 
 
+def _upd(screening, dynamic):
+    from checks import update_common as uc
+    return lambda m=None: uc.run_update(m, screening, dynamic, prefixes=("C10.",))
+
+
 def units():
-    return [Unit("set_link_exponents[fix_psi=True]", F + "MeshOperators.set_link_exponents", run_pinned, props=["C10", "C06"], timeout=900),
+    U = "tdgl.solver.solver:TDGLSolver.update"
+    return [Unit("update[no screening, static A]", U, _upd(False, False), props=["C10"], timeout=900),
+            Unit("update[no screening, dynamic A]", U, _upd(False, True), props=["C10"], timeout=900),
+            Unit("update[screening, static A]", U, _upd(True, False), props=["C10"], timeout=900),
+            Unit("update[screening, dynamic A]", U, _upd(True, True), props=["C10"], timeout=900),
+            Unit("set_link_exponents[fix_psi=True]", F + "MeshOperators.set_link_exponents", run_pinned, props=["C10", "C06"], timeout=900),
             Unit("set_link_exponents[fix_psi=False]", F + "MeshOperators.set_link_exponents", run_free, props=["C10"], timeout=900)]
 
 
 M_ = "tdgl.finite_volume.operators"
+S_ = "tdgl.solver.solver"
 MUTANTS = [
+    dict(name="screening refresh uses applied potential only", edits=[(S_, "operators.set_link_exponents(current_A_applied + A_induced)", "operators.set_link_exponents(current_A_applied)")]),
+    dict(name="screening refresh only in first iteration", edits=[(S_, "            if options.include_screening:\n                # Update the link variables", "            if options.include_screening and screening_iteration == 0:\n                # Update the link variables")]),
     dict(name="conjugate dropped in the refresh only", edits=[(M_, "weights * link_variables.conjugate() / areas[edges[:, 1]],", "weights * link_variables / areas[edges[:, 1]],")]),
     dict(name="laplacian_link_cols in the wrong order", edits=[(M_, "self.laplacian_link_cols = np.concatenate(\n            [edge_mesh.edges[:, 1], edge_mesh.edges[:, 0]]", "self.laplacian_link_cols = np.concatenate(\n            [edge_mesh.edges[:, 0], edge_mesh.edges[:, 1]]")]),
     dict(name="free_rows not applied to values", edits=[(M_, "                values = values[free_rows]\n", "")]),
@@ -67,8 +80,61 @@ MUTANTS = [
 
 
 def replay(unit, obl):
+    if unit.startswith("update["):
+        return replay_trigger(unit, obl)
     from checks import ops_native
     return ops_native.replay_any(unit, obl)
+
+
+def replay_trigger(unit, obl):
+    """native: drive the REAL solver with slowly and quickly ramped time-dependent fields (with / without screening) and compare,
+    at every step, the operators in use with operators rebuilt from scratch for the latest total vector potential"""
+    import logging
+    import os
+    import numpy as np
+    os.environ.setdefault("TQDM_DISABLE", "1")
+    logging.disable(logging.CRITICAL)
+    import tdgl
+    from tdgl.geometry import box
+    from tdgl.solver.solver import TDGLSolver
+    from tdgl.solver.runner import RunningState
+    from tdgl.finite_volume.operators import MeshOperators
+    from tdgl.sources import LinearRamp, ConstantField
+    layer = tdgl.Layer(coherence_length=0.5, london_lambda=2, thickness=0.1, gamma=1)
+    dev = tdgl.Device("d", layer=layer, film=tdgl.Polygon("film", points=box(3, 2)), length_units="um")
+    dev.make_mesh(max_edge_length=0.5, smooth=5)
+    bad = []
+    n = 0
+    for screening in (False, True):
+        for tmin, tmax in ((0.0, 5.0), (-1000.0, 2000.0), (-1000.0, 20000.0)):          # fast ramp from zero; slow ramps around a non-zero field
+            field = LinearRamp(tmin=tmin, tmax=tmax) * ConstantField(1.0, field_units="mT", length_units="um")
+            opts = tdgl.SolverOptions(solve_time=1, include_screening=screening, adaptive=False, dt_init=1e-2, field_units="mT")
+            s = TDGLSolver(dev, opts, applied_vector_potential=field)
+            state = dict(step=0, time=0.0, dt=opts.dt_init)
+            vals = dict(psi=s.psi_init, mu=s.mu_init, supercurrent=np.zeros(s.num_edges), normal_current=np.zeros(s.num_edges),
+                        induced_vector_potential=np.zeros((s.num_edges, 2)), applied_vector_potential=s.current_A_applied)
+            dt = opts.dt_init
+            for step in range(60):
+                state.update(step=step)
+                res = s.update(state, RunningState({"dt": 1, "screening_iterations": 1}, 1), dt, **vals)
+                n += 1
+                total = res.A_applied if not screening else None
+                if not screening:
+                    fresh = MeshOperators(dev.mesh, None, fixed_sites=np.array([], dtype=np.int64), fix_psi=False)
+                    fresh.set_link_exponents(res.A_applied)
+                    err = abs(s.operators.psi_laplacian - fresh.psi_laplacian).max()
+                    if err > 1e-12:
+                        bad.append(dict(screening=screening, ramp=(tmin, tmax), step=step, max_abs_diff_laplacian_vs_rebuild=float(err)))
+                        break
+                vals = dict(psi=res.psi, mu=res.mu, supercurrent=res.supercurrent, normal_current=res.normal_current,
+                            induced_vector_potential=res.A_induced, applied_vector_potential=res.A_applied)
+                dt = res.dt
+                state["time"] += dt
+    logging.disable(logging.NOTSET)
+    if bad:
+        return dict(confirmed=True, failing_input=bad[0], n_failing=len(bad), evaluations=n, tdgl_file=tdgl.__file__,
+                    note="operators in use differ from operators rebuilt for the latest applied vector potential (refresh skipped)")
+    return dict(confirmed=False, evaluations=n, tdgl_file=tdgl.__file__)
 
 
 def thorough(seed=0):
